@@ -1,3 +1,5 @@
+#![cfg_attr(feature = "nightly", feature(generic_const_exprs))]
+#![cfg_attr(feature = "nightly", allow(incomplete_features))]
 mod common;
 mod concat;
 mod data;
